@@ -111,6 +111,7 @@ class Contract:
         self.on_raise = on_raise
         self.spec_loops = spec_loops or {}
         self.property_ids = tuple(property_ids)
+        self.lemma = None
         self._spec_node = None
 
     def spec_node(self):
@@ -175,6 +176,16 @@ class World:
                 env.set(a.asname or a.name.split('.')[0], VOpaque('import ' + a.name))
 
     # ------------------------------------------------------------ views
+    def box_dagger(self, interp, b):
+        """contract of Box.dagger / Box[::-1] (assumed here, verified per concrete class):
+        swaps dom and cod and is an involution"""
+        ex = interp.ex
+        d = T.bdag(b.t)
+        ex.assume(T.bdom(d) == T.bcod(b.t))
+        ex.assume(T.bcod(d) == T.bdom(b.t))
+        ex.assume(T.bdag(d) == b.t)
+        return VBox(d)
+
     def box_as_diagram(self, b):
         eps = VTy(T.EMPTY)
         dom, cod = VTy(T.bdom(b.t)), VTy(T.bcod(b.t))
@@ -382,12 +393,12 @@ class World:
         if isinstance(obj, VBox):
             if isinstance(idx, VSlice) and isinstance(idx.start, VNone) and isinstance(idx.stop, VNone) \
                     and T.int_val(getattr(idx.step, 't', T.I(0))) == -1:
-                return VBox(T.bdag(obj.t))
+                return self.box_dagger(interp, obj)
             return self.getitem(interp, self.box_as_diagram(obj), idx)
         if isinstance(obj, VLayer):
             if isinstance(idx, VSlice) and isinstance(idx.start, VNone) and isinstance(idx.stop, VNone) \
                     and T.int_val(getattr(idx.step, 't', T.I(0))) == -1:
-                return VLayer(obj.left, VBox(T.bdag(obj.box.t)), obj.right)
+                return VLayer(obj.left, self.box_dagger(interp, obj.box), obj.right)
         if isinstance(obj, VObject) and obj.cls == 'dict':
             k = interp.dict_key(idx)
             if k in obj.attrs:
@@ -431,6 +442,18 @@ class World:
         if cls == 'py.tuple':
             if not args:
                 return VTuple([])
+            if args[0].kind == 'zipstar':
+                rows = args[0].rows
+                if not ex.branch(rows.length() > 0):
+                    return VTuple([])
+                probe = ex.list_at(rows, T.I(0))
+                if not isinstance(probe, VTuple):
+                    raise Unsupported('zip(*rows) over rows that are not tuples')
+                cols = []
+                for j in range(len(probe.items)):
+                    col = ex.list_map(rows, (lambda jj: lambda row: row.items[jj])(j), 'column%d' % j)
+                    cols.append(VList(col.segs, True))
+                return VTuple(cols)
             out = self.to_list(interp, args[0])
             return VList(out.segs, True)
         if cls == 'py.slice':
@@ -476,7 +499,7 @@ class World:
                                                '__getitem__'):
             recv = self.box_as_diagram(recv)
         if isinstance(recv, VBox) and name == 'dagger':
-            return VBox(T.bdag(recv.t))
+            return self.box_dagger(interp, recv)
         if isinstance(recv, (VDiagram, VArrow)) and name == 'upgrade':
             # abstract Upgrade contract (DESIGN 2.4): identity on every modelled field
             return args[0]
@@ -559,7 +582,10 @@ class World:
             if kind == 'arrow':
                 return VArrow(a['_dom'], a['_cod'], a['_boxes'])
             if kind == 'diagram':
-                return VDiagram(a['_dom'], a['_cod'], a['_boxes'], a['_offsets'], a['_layers'])
+                offs = a['_offsets']
+                if isinstance(offs, VTuple):
+                    offs = VList.lit(offs.items)
+                return VDiagram(a['_dom'], a['_cod'], a['_boxes'], VList(offs.segs, False), a['_layers'])
             if kind == 'layer':
                 return VLayer(a['_left'], a['_box'], a['_right'])
         except KeyError as e:
@@ -569,6 +595,7 @@ class World:
 
 # super() resolution: (class owning the method, method) -> qualified callee
 SUPER = {
+    ('monoidal.Box', '__init__'): 'cat.Box.__init__',
     ('monoidal.Diagram', '__init__'): 'cat.Arrow.__init__',
     ('monoidal.Layer', '__init__'): 'cat.Box.__init__',
     ('monoidal.Diagram', 'then'): 'cat.Arrow.then',
@@ -779,3 +806,37 @@ SPEC_PRIMS = {
     'RawArrow': _raw_arrow, 'RawDiagram': _raw_diagram, 'RawLayer': _raw_layer, 'EmptyTy': _empty_ty,
     'as_diagram': _as_diagram,
 }
+
+
+# ---------------------------------------------------------------------- spec snippets
+
+def spec_eval(interp, src, variables, qual='spec:<inv>'):
+    """evaluate a spec-language expression in an environment of named symbolic values"""
+    node = ast.parse(src.strip(), mode='eval').body
+    frame = Frame(qual, {})
+    interp.world.spec_mode += 1
+    try:
+        return interp.eval(node, Env(None, dict(variables)), frame)
+    finally:
+        interp.world.spec_mode -= 1
+
+
+def closed_form(exprs, extra=None):
+    """LoopSpec whose state at iteration k is given by spec-language expressions over the function's
+    own variables and `k` (and `seq`, the iterated list)"""
+    def state(interp, env, k, seq):
+        variables = {}
+        e = env
+        chain = []
+        while e is not None:
+            chain.append(e.vars)
+            e = e.parent
+        for v in reversed(chain):
+            variables.update(v)
+        variables['k'] = VInt(k)
+        if seq is not None:
+            variables['seq'] = seq
+        if extra:
+            variables.update(extra)
+        return {name: spec_eval(interp, src, variables) for name, src in exprs.items()}
+    return LoopSpec(state=state)
